@@ -164,6 +164,15 @@ func cmdVerify(args []string) int {
 			all = append(all, o)
 		}
 	}
+	if (*prop == "C17" || *prop == "") && (*fn == "" || strings.Contains(*fn, "helper.Bst.searchNode")) {
+		if fi := w.Funcs["helper.Bst.searchNode"]; fi != nil {
+			eng.fi = fi
+			eng.frames = []frame{{pkg: fi.Pkg, fi: fi}}
+		}
+		rep := eng.bstCompareObligations()
+		reports = append(reports, rep)
+		all = append(all, rep.Obls...)
+	}
 	// lemmas used by the selected functions (or all lemmas when no filter)
 	for _, name := range sortedKeys(w.Lemmas) {
 		lc := w.Lemmas[name]
@@ -283,7 +292,21 @@ func cmdVerify(args []string) int {
 			replayOf[keys[i]] = r
 		}
 	}
+	machineReplay := map[string]interface{}{}
+	for _, o := range failed {
+		if o.Kind == "machine" && o.Model != "" && !isKnownObl(o.Name) && len(machineReplay) < 2 {
+			if info, failedOnReal := eng.bstReplay(o, seed); info != nil && failedOnReal {
+				machineReplay[o.Name] = info
+			}
+		}
+	}
 	replayInfo := func(fn string) (interface{}, string) {
+		if strings.HasPrefix(fn, "@") {
+			if x, ok := machineReplay[fn[1:]]; ok {
+				return x, ""
+			}
+			return nil, " no-failing-input-found"
+		}
 		r := replayOf[fn]
 		if r == nil {
 			return nil, " no-failing-input-found"
@@ -315,9 +338,9 @@ func cmdVerify(args []string) int {
 		violations++
 		path := writeReplay(*replayDir, pid, o.Name, map[string]interface{}{
 			"obligation": o.Name, "function": o.Func, "kind": o.Kind, "where": o.Where, "result": o.Result, "solver": o.Solver,
-			"solver_output_model": o.Model, "candidate_model_qf_relaxation": o.CandModel, "detail": o.Detail, "goal": o.Goal.String(), "failing_input": func() interface{} { x, _ := replayInfo(o.Func); return x }(),
+			"solver_output_model": o.Model, "candidate_model_qf_relaxation": o.CandModel, "detail": o.Detail, "goal": o.Goal.String(), "failing_input": func() interface{} { x, _ := replayInfo(replayKey(o)); return x }(),
 		})
-		_, suffix := replayInfo(o.Func)
+		_, suffix := replayInfo(replayKey(o))
 		fmt.Printf("VIOLATION property=%s replay=%s%s\n", pid, path, suffix)
 	}
 	for _, r := range outOfReach {
@@ -329,6 +352,28 @@ func cmdVerify(args []string) int {
 		_, suffix := replayInfo(strings.SplitN(r, ":", 2)[0])
 		fmt.Printf("VIOLATION property=%s replay=%s%s\n", pid, path, suffix)
 	}
+	var bounded []map[string]interface{}
+	if (*prop == "C17") && *fn == "" {
+		ml := 6
+		if *tier == "thorough" {
+			ml = 8
+		}
+		rs, errs := eng.runBstBounded(ml)
+		if errs != "" {
+			violations++
+			path := writeReplay(*replayDir, pid, "helper.Bst_bounded-histories", map[string]interface{}{"obligation": "helper.Bst/bounded-histories", "detail": errs})
+			fmt.Printf("VIOLATION property=%s replay=%s no-failing-input-found\n", pid, path)
+		}
+		for _, r := range rs {
+			bounded = append(bounded, map[string]interface{}{"label": "bounded", "what": "helper.Bst[" + r.Type + "] Insert/Remove histories vs multiset (Contains, Min, Max, Remove result after every step)", "max_history_length": ml, "domain_size": 4, "histories": r.Histories, "steps_checked": r.Steps, "failure": r.Failure})
+			if r.Failure != "" {
+				violations++
+				path := writeReplay(*replayDir, pid, "helper.Bst_bounded-histories_"+r.Type, map[string]interface{}{"obligation": "helper.Bst/bounded-histories/" + r.Type, "failing_input": map[string]interface{}{"type": r.Type, "history": r.Failure}})
+				fmt.Printf("VIOLATION property=%s replay=%s\n", pid, path)
+			}
+		}
+	}
+	boundedGlobal = bounded
 	fmt.Printf("functions=%d obligations=%d discharged=%d violations=%d load=%.1fs gen=%.1fs solve=%.1fs\n", len(reports), len(all), nd, violations, loadT.Seconds(), genT.Seconds(), solveT.Seconds())
 	if *verbose {
 		for _, rep := range reports {
@@ -348,6 +393,15 @@ func cmdVerify(args []string) int {
 		return 1
 	}
 	return 0
+}
+
+var boundedGlobal []map[string]interface{}
+
+func replayKey(o *Obligation) string {
+	if o.Kind == "machine" {
+		return "@" + o.Name
+	}
+	return o.Func
 }
 
 func writeReplay(dir, prop, name string, body map[string]interface{}) string {
@@ -421,16 +475,17 @@ func writeEvidence(path, prop, tier string, seed int, level string, w *World, re
 		"property_id": prop, "tier": tier, "seed": seed, "level": level, "wall_s": wall, "violations": violations,
 		"coverage": map[string]interface{}{
 			"obligations": len(all), "discharged": nd,
-			"checker_cmd":              "bin/govc verify -prop " + prop + " -tier " + tier,
-			"trusted_base":             sortedKeys(trusted),
-			"functions_under_contract": funcs,
-			"inlined_leaf_functions":   inl,
-			"callee_contracts_used":    callee,
-			"discharged_by_backend":    bySolver,
-			"solver_seconds":           solverSecs,
-			"known_findings_set_aside": kf,
-			"samples":                  samples,
-			"explanation":              "obligations generated from /repo's working tree by forward symbolic execution against the //@ contracts in */zz_contracts_verif.go; each discharged by an SMT back end (unsat of hypotheses and negated goal); cover obligations (vacuity guards) must not be unsat",
+			"checker_cmd":                             "bin/govc verify -prop " + prop + " -tier " + tier,
+			"trusted_base":                            sortedKeys(trusted),
+			"functions_under_contract":                funcs,
+			"inlined_leaf_functions":                  inl,
+			"callee_contracts_used":                   callee,
+			"discharged_by_backend":                   bySolver,
+			"solver_seconds":                          solverSecs,
+			"known_findings_set_aside":                kf,
+			"bounded_stand_ins_not_counted_as_proved": boundedGlobal,
+			"samples":                                 samples,
+			"explanation":                             "obligations generated from /repo's working tree by forward symbolic execution against the //@ contracts in */zz_contracts_verif.go; each discharged by an SMT back end (unsat of hypotheses and negated goal); cover obligations (vacuity guards) must not be unsat",
 		},
 		"assumptions": sortedKeys(assumptions),
 	}
